@@ -38,6 +38,7 @@ func init() {
 	for i := 0; i < 18; i++ {
 		fmt.Fprintf(&sb, "||big.test^$dnsrewrite=10.0.0.%d\n", i)
 	}
+	sb.WriteString("@@||big.test^$dnsrewrite=10.0.0.3\n")
 	sb.WriteString("||kid.test^$client=kid-laptop")
 	for i := 0; i < 10; i++ {
 		fmt.Fprintf(&sb, "|10.%d.0.0/16", i)
@@ -73,7 +74,7 @@ func c13Ops() []c13Op {
 		{name: "dns TXT blocked.test ($denyallow rule)", query: d("blocked.test", 16, "", ""), slot: -1},
 		{name: "dns EXAMPLE.org (the name of another query in another letter case)", query: d("EXAMPLE.org", 1, "", ""), slot: -1},
 		{name: "dns xample.org (matches nothing; shares shortcut windows with the example.org rules)", query: d("xample.org", 1, "", ""), slot: -1},
-		{name: "dns big.test (18 matching rules, held)", query: d("big.test", 1, "", ""), slot: 7},
+		{name: "dns big.test (19 matching rules, all of them rewrites, held)", query: d("big.test", 1, "", ""), slot: 7},
 		{name: "dns kid.test as tv/192.168.1.5", query: d("kid.test", 1, "tv", "192.168.1.5"), slot: -1},
 		{name: "dns kid.test as kid-laptop/192.168.1.5", query: d("kid.test", 1, "kid-laptop", "192.168.1.5"), slot: -1},
 		{name: "dns blocked.test anonymous through DNSEngine.Match(hostname)", query: &scen.Query{Kind: "dnsmatch", Host: "blocked.test"}, slot: -1},
@@ -95,7 +96,7 @@ func c13Ops() []c13Op {
 		{name: "GetBasicResult()+GetCosmeticOption() on held docsite result", deriv: "basic", on: 3},
 		{name: "DNSRewrites() on held rw.test result", deriv: "rewrites", on: 1},
 		{name: "DNSRewritesAll() on held rw.test result", deriv: "rewritesall", on: 1},
-		{name: "DNSRewrites() on held example.org result", deriv: "rewrites", on: 0},
+		{name: "DNSRewrites() on held big.test result (rewrite rules only, one exception among them)", deriv: "rewrites", on: 7},
 		{name: "DNSRewrites() on held rw2.test result", deriv: "rewrites", on: 6},
 		{name: "rules.GetDNSBasicRule(NetworkRules) of the held rw.test result", deriv: "dnsbasic", on: 1},
 		{name: "GetBasicResult()+GetCosmeticOption() on held engine result", deriv: "basic", on: 2},
